@@ -19,7 +19,9 @@ from ..runner import Acc
 PROP = "C10"
 LEVEL = "model_checking"
 
-NS = {10: ("Template", ["template", "t"]), 828: ("Module", ["module", "mod"]), 0: ("", [])}
+NS = {10: ("Template", ["template", "t"]), 828: ("Module", ["module", "mod"]), 0: ("", []),
+      # a namespace whose local name differs from its canonical name and that has an alias as well, and its talk namespace
+      4: ("Wiktionary", ["wiktionary", "wt", "project"]), 5: ("Wiktionary talk", ["wiktionary talk", "project talk"])}
 # identities: stored title, namespace id
 IDENT = {
     "T1": ("Template:Foo bar", 10),
@@ -38,9 +40,36 @@ IDENT_COLON = {
 }
 
 
+# third universe: the project namespace (local name, canonical name and alias all differ) and its talk namespace
+IDENT_PROJECT = {
+    "P1": ("Wiktionary:About", 4),
+    "P2": ("Wiktionary talk:About", 5),
+    "P3": ("Wiktionary:Alias", 4),
+}
+
+
 def set_universe(name):
     global IDENT
-    IDENT = IDENT_COLON if name == "colon" else IDENT_MAIN
+    IDENT = IDENT_COLON if name == "colon" else IDENT_PROJECT if name == "project" else IDENT_MAIN
+
+
+def alphabet_project():
+    ops = []
+    for i in ("P1", "P2"):
+        for b in BODIES:
+            ops.append(("add", i, b))
+    ops.append(("addnp", "P1", "b2"))
+    ops.append(("redir", "P3", "P1"))
+    ops.append(("commit",))
+    set_universe("project")
+    try:
+        for i in IDENT_PROJECT:
+            for v in variants(i):
+                ops.append(("probe", i, v[0]))
+    finally:
+        set_universe("main")
+    ops.append(("probe2", "P1", "canonical"))
+    return ops
 
 
 def alphabet_colon():
@@ -71,13 +100,16 @@ def variants(ident):
                ("wrongcase", title.replace("bar", "Bar"), 0)]
     else:
         prefix, name = title.split(":", 1)
-        alias = {"Template": "T", "Module": "MOD"}[prefix]
+        alias = {"Template": "T", "Module": "MOD", "Wiktionary": "WT", "Wiktionary talk": "Project talk"}[prefix]
         out = [("exact", title, ns), ("nsnone", title, None), ("noprefix", name, ns),
                ("alias", alias + ":" + name, ns), ("lowerprefix", prefix.lower() + ":" + name, ns),
                ("underscore", title.replace(" ", "_"), ns),
                ("lowerfirst", prefix + ":" + name[0].lower() + name[1:], ns),
                ("upperfirst", prefix + ":" + name[0].upper() + name[1:], ns),
                ("wrongcase", prefix + ":" + name.replace("bar", "Bar"), ns)]
+        if prefix == "Wiktionary":
+            out += [("canonical", "Project:" + name, ns), ("canonical_lower", "project:" + name, ns), ("alias_lower", "wt:" + name, ns),
+                    ("canonical_upper", "PROJECT:" + name, ns)]
     seen, uniq = set(), []
     for v in out:
         if (v[1], v[2]) not in seen:
@@ -408,6 +440,13 @@ def main(run):
         else:
             for o in cops:
                 chunks.append((cops, [(o,)], depth, "colon"))
+    pops = alphabet_project()
+    for depth in range(1, (2 if run.tier == "quick" else 3) + 1):
+        if depth == 1:
+            chunks.append((pops, [()], 1, "project"))
+        else:
+            for o in pops:
+                chunks.append((pops, [(o,)], depth, "project"))
     # biggest chunks first
     chunks.sort(key=lambda c: -(len(c[0]) ** (c[2] - len(c[1][0]))))
     tchunks = [("transclude", [r], 2 if run.tier == "quick" else 3) for r in TR_READS]
@@ -431,8 +470,9 @@ def main(run):
                 "a second context) that end in a probe; each on a fresh real Wtp with a file database; states = distinct "
                 "(working, committed) contents of the dict reference model, transitions = distinct (state, op) pairs; every "
                 "probe compares get_page / page_exists / get_page_resolve_redirect / get_page_body / expand({{t}}) with the reference; "
-                "plus all sequences of length <= %d over a %d-operation alphabet on a second universe of 3 identities whose names contain a colon"
-                % (maxdepth, len(ops), 2 if run.tier == "quick" else 3, len(cops)),
+                "plus all sequences of length <= %d over a %d-operation alphabet on a second universe of 3 identities whose names contain a colon, "
+                "and over a %d-operation alphabet on a third universe in the project namespace (local name Wiktionary, canonical name Project, alias WT) and its talk namespace"
+                % (maxdepth, len(ops), 2 if run.tier == "quick" else 3, len(cops), len(pops)),
         "alphabet": [list(o) for o in ops],
         "exhaustive": True,
         "bound": "history length <= %d" % maxdepth,
